@@ -1,9 +1,12 @@
 pub mod c01;
 pub mod c02;
+pub mod c10;
+pub mod c14;
+pub mod c15;
 pub mod textspace;
 
 use crate::fw::Property;
 
 pub fn registry() -> Vec<Box<dyn Property>> {
-    vec![Box::new(c01::C01), Box::new(c02::C02)]
+    vec![Box::new(c01::C01), Box::new(c02::C02), Box::new(c10::C10), Box::new(c14::C14), Box::new(c15::C15)]
 }
